@@ -1,6 +1,7 @@
 package checks
 
 import (
+	"math"
 	"context"
 	"encoding/json"
 	"fmt"
@@ -102,7 +103,7 @@ func absServer(conc *abs.Conc, m mocrelay.ServerMsg, evOf func(string) (abs.Even
 	case *mocrelay.ServerCountMsg:
 		a := amsg("SCOUNT")
 		a["sub"] = m.SubscriptionID
-		a["n"] = int64(m.Count)
+		a["n"] = absCount(m.Count)
 		return a
 	case *mocrelay.ServerNoticeMsg:
 		a := amsg("NOTICE")
@@ -276,7 +277,11 @@ func (c *scriptedChild) ServeNostr(ctx context.Context, send chan<- mocrelay.Ser
 					return ctx.Err()
 				}
 			case *mocrelay.ClientCountMsg:
-				if !c.emit(ctx, send, mocrelay.NewServerCountMsg(m.SubscriptionID, uint64(c.r.Intn(4)), nil)) {
+				n := uint64(c.r.Intn(4))
+				if c.r.Intn(5) == 0 { // counts far apart: the maximum must not be computed by subtraction
+					n = []uint64{1 << 62, 1<<63 + 10, math.MaxUint64}[c.r.Intn(3)]
+				}
+				if !c.emit(ctx, send, mocrelay.NewServerCountMsg(m.SubscriptionID, n, nil)) {
 					return ctx.Err()
 				}
 				if m.SubscriptionID != sentinelSub && c.r.Intn(6) == 0 {
@@ -915,4 +920,19 @@ func runRealMergeScenario(run *core.Run, seed int64, what string) (tv.Trace, boo
 
 func mocsqliteNew(ctx context.Context, st *sqlStore) (mocrelay.Handler, error) {
 	return mocsqlite.NewSQLiteHandler(ctx, st.db, &mocsqlite.SQLiteHandlerOption{EventBulkInsertNum: 1, EventBulkInsertDur: time.Hour, MaxLimit: mocsqlite.NoLimit})
+}
+
+// absCount maps counts to the model's (32 bit) integers, order-preserving for the values the scripted children use.
+func absCount(n uint64) int64 {
+	switch {
+	case n == math.MaxUint64:
+		return 1000003
+	case n >= 1<<63:
+		return 1000002
+	case n >= 1<<62:
+		return 1000001
+	case n > 1000000:
+		return 1000000
+	}
+	return int64(n)
 }
